@@ -157,7 +157,9 @@ class Ref(object):
             for r in g["run"]:
                 if r[0] == task and r[1] == lineage and r[4] is not None and not r[4].get("done"):
                     return r, False
-        for i, t in enumerate(g["tok"]):
+        order = sorted(range(len(g["tok"])), key=lambda i: (bool(len(g["tok"][i]) > 6 and g["tok"][i][6]), i))
+        for i in order:
+            t = g["tok"][i]
             if t[0] == task and t[1] == lineage:
                 del g["tok"][i]
                 g["last_consumed_optional"] = bool(len(t) > 6 and t[6])
